@@ -132,6 +132,60 @@ def compare_with_model(run: Run, rows):
                 run.mismatch("model", case, None, r, "Lean model: path does not parse to the AST / select the node")
 
 
+def entity_documents(run: Run, stream, count):
+    """documents read with ParserOptions(resolve_entities=False): unresolved entity references stay in the tree between
+    the elements (lxml entity nodes, which the XPath engine counts as `*`); the paths of the proper elements still are
+    unique addresses (seeded C14-8: children counted on the lxml level with a filter that skips entity nodes)"""
+    from delb import Document, ParserOptions, altered_default_filters, is_tag_node
+
+    rng = run.rng
+
+    def body(depth):
+        out = ""
+        for _ in range(rng.randint(0, 4)):
+            r = rng.random()
+            if r < 0.3:
+                out += "&e%d;" % rng.randint(1, 2)
+            elif r < 0.45:
+                out += rng.choice(["t", " ", "<!--c-->", "<?p d?>"])
+            elif depth < 3:
+                out += "<%s>%s</%s>" % ("a", body(depth + 1), "a")
+            else:
+                out += "<b/>"
+        return out
+
+    for _ in range(count):
+        xml = '<!DOCTYPE r [<!ENTITY e1 "one"><!ENTITY e2 "two">]><r>%s</r>' % body(0)
+        case = {"xml": xml, "ops": [], "entities": True}
+        try:
+            doc = Document(xml, parser_options=ParserOptions(resolve_entities=False))
+            with altered_default_filters():
+                nodes = [doc.root, *doc.root.iterate_descendants()]
+            proper = lambda n: not is_tag_node(n) or isinstance(n.universal_name, str)  # noqa: E731
+            elements = [n for n in nodes if is_tag_node(n) and proper(n)]
+            contexts = [n for n in nodes if proper(n)]
+        except Exception as e:  # noqa: BLE001
+            raise common.ToolFailure(f"entity document could not be built: {type(e).__name__}: {e}")
+        run.case(stream, case, len(elements) > 2)
+        run.count("entity references", min(xml.count("&e"), 6))
+        seen = {}
+        for node in elements:
+            try:
+                path = node.location_path
+                if path in seen:
+                    run.violation(stream, case, {"why": "two tag nodes share a location_path", "path": path})
+                seen[path] = node
+                for ctx in rng.sample(contexts, min(3, len(contexts))):
+                    res = list(ctx.xpath(path))
+                    if len(res) != 1 or res[0] is not node:
+                        run.violation(stream, case, {"why": "location_path does not select exactly its node", "path": path,
+                                                     "selected": len(res)})
+                        break
+            except Exception as e:  # noqa: BLE001
+                run.violation(stream, case, {"why": f"location_path / its evaluation raised {type(e).__name__}: {e}"})
+                break
+
+
 def check(run: Run, lean: dict) -> int:
     n = run.budget(150, 4000)
     run.extra["rule"] = (
@@ -144,6 +198,7 @@ def check(run: Run, lean: dict) -> int:
     rows = []
     for _ in range(n):
         run_one(run, "generated", E.pick_doc(run.rng), None, run.rng.randint(0, 12), rows)
+    entity_documents(run, "entity-references", max(20, n // 5))
     if ok:
         compare_with_model(run, rows)
     return run.finish(lean, LEVEL, ASSUME, search=search)
